@@ -11,7 +11,7 @@ jobs.json: [{"name": ..., "patch": "/path/to.diff" | null, "revert": "<sha>" | n
 import json, os, shutil, subprocess, sys, time
 from multiprocessing import Pool
 
-LAB = '/tmp/lab'
+LAB = os.environ.get('LAB_DIR', '/tmp/lab')
 BIN = {**{p: 'ivp' for p in ['C01', 'C02', 'C03', 'C04', 'C05', 'C06']}, 'C07': 'roots', 'C08': 'roots', 'C14': 'roots',
        'C09': 'quad', 'C10': 'quad', 'C11': 'poly', 'C12': 'poly', 'C13': 'poly', 'C18': 'poly', 'C15': 'interp',
        'C16': 'interp', 'C17': 'fit', 'C19': 'misc', 'C20': 'misc'}
@@ -107,7 +107,7 @@ def main():
     keep = '--keep' in args
     os.makedirs(LAB, exist_ok=True)
     os.makedirs('/verif/sensitivity', exist_ok=True)
-    out_path = '/verif/sensitivity/results.json'
+    out_path = os.environ.get('LAB_OUT', '/verif/sensitivity/results.json')
     out = json.load(open(out_path)) if os.path.exists(out_path) else {}
     work = [(j, i % workers, tier, keep) for i, j in enumerate(jobs)]
     # one job per worker at a time: chunk by worker id
